@@ -64,7 +64,7 @@ def cls : Outcome α → String
 
 /-- five reader kinds per `k` on the Go side; the model knows a source only through `ReadAt`, so
 its verdict is the same for all of them, except that the section reader (third) answers accesses
-at or beyond its declared length itself -/
+at or beyond its declared length itself, and a negative offset with EOF (class "invalid") -/
 def five (s t : String) : String := s ++ s ++ t ++ s ++ s
 
 /-- `io.NewSectionReader(base, 0, len).ReadAt`: EOF at or beyond the declared length without
@@ -78,11 +78,11 @@ def sectReader (base : ReaderAt) (len : Nat) : ReaderAt := fun off n =>
   "".intercalate (ks.map fun k =>
     if mode == "trunc" then
       let ra := virtReader (hdr.take k) (min k len)
-      five (cls (readR Gen.headerMaxTables ra)) (cls (readR Gen.headerMaxTables (sectReader ra len)))
+      five (cls (readR Gen.headerMaxTables ra)) (cls (readRG "invalid" Gen.headerMaxTables (sectReader ra len)))
     else
       let v := virtReader hdr len
       let ra : ReaderAt := fun off n => if off + n > k then .fault else v off n
-      five (cls (readR Gen.headerMaxTables ra)) (cls (readR Gen.headerMaxTables (sectReader ra len))))
+      five (cls (readR Gen.headerMaxTables ra)) (cls (readRG "invalid" Gen.headerMaxTables (sectReader ra len))))
 
 /-- expected verdicts of the property for a file cut at `k`: every `k` below the end of the last
 table must be rejected (`E`) by the seekable reader, by the two streams ending with EOF at `k`,
